@@ -346,7 +346,7 @@ WebSocketMsg WebSocket::receive()
 			break;
 		}
 
-		if (fin)
+		if (fin && opcode < 8) // control frames never complete a data message
 			haveMsg = true;
 	}
 
